@@ -1,6 +1,8 @@
 package props
 
 import (
+	"github.com/libp2p/go-libp2p/core/host"
+	"github.com/libp2p/go-libp2p"
 	"bytes"
 	"context"
 	"fmt"
@@ -325,6 +327,7 @@ type Front struct {
 	srv  *httptest.Server // real TCP (only when fault fidelity at the socket level matters)
 	msrv *memServer       // in-memory network (default)
 	p2ph *libp2phttp.Host
+	streamHost host.Host
 	Addr multiaddr.Multiaddr
 	URL  *url.URL
 
@@ -343,9 +346,12 @@ const (
 	MountPlain     FrontMode = iota // net/http server, requests carry /ipni/v1/ad/
 	MountLegacy                     // net/http server that only answers without the IPNI path
 	MountDiscovery                  // libp2phttp host over HTTP: .well-known is served
+	MountStream                     // libp2phttp host over libp2p streams (the subscriber needs a libp2p host)
 )
 
-func (m FrontMode) String() string { return [...]string{"plain", "legacy-nopath", "libp2phttp-discovery"}[m] }
+func (m FrontMode) String() string {
+	return [...]string{"plain", "legacy-nopath", "libp2phttp-discovery", "libp2p-stream"}[m]
+}
 
 // RealTCPFronts makes plain/legacy fronts listen on real sockets instead of the in-memory network.
 var RealTCPFronts = false
@@ -378,6 +384,18 @@ func NewFront(c *vf.Ctx, id Ident, st *Store, mode FrontMode, topic string) (*Fr
 		if err != nil {
 			return nil, err
 		}
+	case MountStream:
+		f.stripTo = "/ipni/v1/ad/"
+		sh, err := libp2p.New(libp2p.Identity(id.Priv), libp2p.ListenAddrStrings("/ip4/127.0.0.1/tcp/0"), libp2p.DisableRelay(), libp2p.ResourceManager(nil))
+		if err != nil {
+			return nil, err
+		}
+		h := &libp2phttp.Host{StreamHost: sh}
+		h.SetHTTPHandlerAtPath(ipnisync.ProtocolID, "/ipni/v1/ad", f)
+		go h.Serve()
+		f.p2ph = h
+		f.streamHost = sh
+		f.Addr = sh.Addrs()[0]
 	case MountDiscovery:
 		f.stripTo = "/ipni/v1/ad/"
 		h := &libp2phttp.Host{
@@ -408,6 +426,9 @@ func (f *Front) Close() {
 	}
 	if f.p2ph != nil {
 		f.p2ph.Close()
+	}
+	if f.streamHost != nil {
+		f.streamHost.Close()
 	}
 }
 
@@ -504,6 +525,9 @@ func (f *Front) ServeHTTP(w http.ResponseWriter, r *http.Request) {
 				if err == nil {
 					if tc, ok := conn.(*net.TCPConn); ok {
 						tc.SetLinger(0) // RST on real sockets; an in-memory connection is simply cut
+					}
+					if rs, ok := conn.(interface{ Reset() error }); ok {
+						rs.Reset() // a libp2p stream is reset
 					}
 					conn.Close()
 				}
